@@ -140,6 +140,9 @@ struct Case {
   bool verbose = false;  // replay mode
   bool failed = false;
   bool muted = false;    // E1 prefix replay: failures are not recorded
+  // E2: the index ranges this worker executed before the current case (a violation that does not reproduce alone is replayed after them:
+  // an answer that depends on the calls made before it -- hidden state in the code under test -- is still a reproducible violation)
+  const std::string* ctxDone = nullptr; uint64_t ctxStart = 0, ctxIndex = 0;
   void site(const char* s) { if (slot) { strncpy(slot->site, s, sizeof(slot->site) - 1); slot->site[sizeof(slot->site) - 1] = 0; } }
   void tag(const std::string& k) { if (!muted) out->hist[k]++; }
   void nontrivial() { if (!muted) out->nontrivial++; }
@@ -149,6 +152,7 @@ struct Case {
     if (muted) return;
     failed = true;
     Viol v; v.sig = sig; v.space = *space; v.witness = witness; v.detail = detail;
+    if (ctxDone && witness == str(ctxIndex) && (!ctxDone->empty() || ctxStart < ctxIndex)) v.witness += "@" + *ctxDone + str(ctxStart) + "-" + str(ctxIndex);
     out->addViol(v);
     if (verbose) printf("  FAIL sig=%s\n       %s\n", sig.c_str(), detail.c_str());
   }
@@ -208,7 +212,20 @@ class Runner {
     if (replay) {
       if (name != replaySpace || isE1level) return res;
       uint64_t idx = strtoull(replayWitness.c_str(), nullptr, 10);
-      replayOne(name, replayWitness, [&](Case& c) { fn(idx, c); }, caseTimeout * 20);
+      // witness "i@a-b,c-d,...,s-i" with VF_REPLAY_CONTEXT set: first the cases the worker had executed before i (muted), in one process
+      std::vector<std::pair<uint64_t, uint64_t>> pre; size_t at = replayWitness.find('@'); uint64_t npre = 0;
+      if (at != std::string::npos && getenv("VF_REPLAY_CONTEXT")) {
+        std::string r = replayWitness.substr(at + 1); size_t p0 = 0;
+        while (p0 < r.size()) { size_t cm = r.find(',', p0); std::string one = r.substr(p0, cm == std::string::npos ? std::string::npos : cm - p0); size_t da = one.find('-');
+          if (da != std::string::npos) { uint64_t a = strtoull(one.c_str(), nullptr, 10), b = strtoull(one.c_str() + da + 1, nullptr, 10); if (b > a) { pre.push_back({a, b}); npre += b - a; } }
+          if (cm == std::string::npos) break; p0 = cm + 1; }
+        if (!pre.empty() && pre.back().second == idx) { /* last range ends just before the case */ }
+        printf("REPLAY in context: %llu earlier case(s) of the same worker are executed first (muted)\n", (unsigned long long)npre);
+      }
+      double budget = caseTimeout * 20 + (double)npre * std::min(caseTimeout, 0.05); if (budget > 3000) budget = 3000;
+      replayOne(name, replayWitness, [&](Case& c) {
+        for (auto& rg : pre) for (uint64_t i = rg.first; i < rg.second; ++i) { if (i == idx) continue; Out o2; Case m = c; m.out = &o2; m.muted = true; m.verbose = false; m.witness = str(i); fn(i, m); }
+        fn(idx, c); }, budget);
       return res;
     }
     SpaceStat st; st.name = name; st.size = size;
@@ -439,11 +456,12 @@ class Runner {
         installAlarm();
         Slot* sl = &sh->slots[w]; sl->active = 1;
         Out o; Case c; c.out = &o; c.slot = sl; c.space = &name;
+        std::string ctxDone; c.ctxDone = &ctxDone;
         auto doRange = [&](uint64_t a, uint64_t b) {
           sl->cstart = a; sl->cend = b;
           for (uint64_t i = a; i < b; ++i) {
             sl->cur = i; sl->site[0] = 0;
-            c.failed = false; c.muted = false; c.witness = str(i);
+            c.failed = false; c.muted = false; c.witness = str(i); c.ctxStart = a; c.ctxIndex = i;
             o.evals++;
             armTimer(caseTimeout);
             fn(i, c);
@@ -452,6 +470,7 @@ class Runner {
           sl->cur = b;
           o.write(of); fprintf(of, "C %llu %llu\n", (unsigned long long)a, (unsigned long long)b); fflush(of);
           o.clear();
+          if (ctxDone.size() < 20000) ctxDone += str(a) + "-" + str(b) + ",";
         };
         for (auto& r : prelude) doRange(r.a, r.b);
         while (!sh->stop.load()) {
